@@ -780,7 +780,8 @@ class DIMSEMessage:
             # These message types *may* have a dataset
             dataset_keyword = _DATASET_KEYWORDS[self.__class__.__name__]
             self.data_set = getattr(primitive, dataset_keyword)
-            if self.data_set:
+            # An empty buffer is sent as no Data Set at all (see encode_msg())
+            if self.data_set and self.data_set.getvalue():
                 self.command_set.CommandDataSetType = 0x0001
         except KeyError:
             # The following message types never have a dataset
